@@ -173,12 +173,9 @@ func (e *Engine) reachable(st *State, topLive []ssa.Value) map[int]bool {
 			markValue(v, st, seen)
 		}
 	}
-	for id, c := range st.chans {
-		seen[id] = true
-		for _, v := range c.buf {
-			markValue(v, st, seen)
-		}
-		markValue(c.handler, st, seen)
+	for id, h := range st.handlers {
+		markObj(id, st, seen)
+		markValue(h, st, seen)
 	}
 	for id, v := range e.gheap {
 		if _, ok := st.heap[id]; !ok {
@@ -202,8 +199,6 @@ func shapeOf(v Value, sb *strings.Builder) {
 		fmt.Fprintf(sb, "s%d:%d:%d:%d", x.Obj, x.Off, x.Len, x.Cap)
 	case MapVal:
 		fmt.Fprintf(sb, "m%d", x.Obj)
-	case ChanVal:
-		fmt.Fprintf(sb, "c%d", x.Obj)
 	case StringVal:
 		if x.Atom != nil {
 			sb.WriteString("a" + x.Pre + "|" + x.Suf)
@@ -251,7 +246,11 @@ func shapeOf(v Value, sb *strings.Builder) {
 	case *IterVal:
 		fmt.Fprintf(sb, "I%p", x)
 	case FloatVal:
-		fmt.Fprintf(sb, "F%v", x.F)
+		if x.I != nil {
+			sb.WriteString("Fsym")
+		} else {
+			fmt.Fprintf(sb, "F%v", x.F)
+		}
 	case nil:
 		sb.WriteByte('n')
 	}
@@ -283,6 +282,7 @@ func (e *Engine) shapeSig(st *State) string {
 			shapeOf(v, &sb)
 		}
 	}
+	fmt.Fprintf(&sb, "|go%d", st.goCount)
 	st.sig = sb.String()
 	return st.sig
 }
@@ -294,7 +294,7 @@ func (e *Engine) mergeAtJoin(a, b *State) (*State, bool) {
 		return nil, false
 	}
 	fa, fb := a.top(), b.top()
-	if fa.fn != fb.fn || fa.block != fb.block || fa.ip != fb.ip || len(fa.defers) != len(fb.defers) {
+	if fa.fn != fb.fn || fa.block != fb.block || fa.ip != fb.ip || len(fa.defers) != len(fb.defers) || a.goCount != b.goCount {
 		return jf("position")
 	}
 	if !concSame(a, b) {
@@ -442,7 +442,7 @@ func mergeMeta(m, a *State, condA *Term, b *State, condB *Term) {
 
 // concSame: two states may only merge when their fork-join bookkeeping (tasks, channels, wait groups) is identical.
 func concSame(a, b *State) bool {
-	if len(a.tasks) != len(b.tasks) || len(a.chans) != len(b.chans) || len(a.wgs) != len(b.wgs) || a.inTask != b.inTask {
+	if len(a.tasks) != len(b.tasks) || len(a.handlers) != len(b.handlers) || len(a.wgs) != len(b.wgs) || a.inTask != b.inTask || a.goCount != b.goCount {
 		return false
 	}
 	for i := range a.tasks {
@@ -455,21 +455,10 @@ func concSame(a, b *State) bool {
 			return false
 		}
 	}
-	for id, ca := range a.chans {
-		cb, ok := b.chans[id]
-		if !ok {
+	for id, ha := range a.handlers {
+		hb, ok := b.handlers[id]
+		if !ok || !sameValue(ha, hb) {
 			return false
-		}
-		if ca == cb {
-			continue
-		}
-		if ca.closed != cb.closed || ca.cap != cb.cap || len(ca.buf) != len(cb.buf) || !sameValue(ca.handler, cb.handler) {
-			return false
-		}
-		for i := range ca.buf {
-			if !sameValue(ca.buf[i], cb.buf[i]) {
-				return false
-			}
 		}
 	}
 	return true
